@@ -1011,10 +1011,11 @@ func (ctx *RenderContext) EvaluateExpression(node Node) (interface{}, error) {
 		if n.test == "not defined" {
 			// Check if it's a variable reference
 			if varNode, ok := n.node.(*VariableNode); ok {
-				// Check directly in context
-				if ctx.context != nil {
-					_, exists := ctx.context[varNode.name]
-					if exists {
+				// Check directly in context, and in the contexts this one reads through
+				// to (an includer's or caller's variables): a variable that is there is
+				// defined even when its value is null
+				for c := ctx; c != nil; c = c.parent {
+					if _, exists := c.context[varNode.name]; exists {
 						// If it exists, "not defined" is false
 						return false, nil
 					}
@@ -1070,10 +1071,11 @@ func (ctx *RenderContext) EvaluateExpression(node Node) (interface{}, error) {
 
 			// Check for simple variable references
 			if varNode, ok := n.node.(*VariableNode); ok {
-				// Check directly in context
-				if ctx.context != nil {
-					_, exists := ctx.context[varNode.name]
-					if exists {
+				// Check directly in context, and in the contexts this one reads through
+				// to (an includer's or caller's variables): a variable that is there is
+				// defined even when its value is null
+				for c := ctx; c != nil; c = c.parent {
+					if _, exists := c.context[varNode.name]; exists {
 						return true, nil
 					}
 				}
